@@ -14,11 +14,11 @@ class Ptr:
 
 NULL = Ptr(0, 0)
 class Obj:
-    __slots__ = ('size', 'cells', 'name', 'const', 'freed', 'kind')
+    __slots__ = ('size', 'cells', 'name', 'const', 'freed', 'kind', 'zf')
     def __init__(s, size, name='', const=False, kind='heap'):
-        s.size = size; s.cells = {}; s.name = name; s.const = const; s.freed = False; s.kind = kind
+        s.size = size; s.cells = {}; s.name = name; s.const = const; s.freed = False; s.kind = kind; s.zf = False
     def clone(s):
-        o = Obj(s.size, s.name, s.const, s.kind); o.cells = dict(s.cells); o.freed = s.freed; return o
+        o = Obj(s.size, s.name, s.const, s.kind); o.cells = dict(s.cells); o.freed = s.freed; o.zf = s.zf; return o
 
 class Frame:
     __slots__ = ('fn', 'lab', 'idx', 'prev', 'loc', 'ret_to', 'allocas', 'loopcnt')
@@ -167,6 +167,14 @@ class Exec:
         o = st.objs.get(p.obj)
         if o is None or p.obj < 0: raise Violation('memory', 'invalid pointer dereference (%s)' % what, st)
         if o.freed: raise Violation('memory', 'use after free (%s of %s)' % (what, o.name), st)
+        if not isc(o.size):
+            # object of symbolic size (allocation sized by an untrusted count): the access must fit for every size the path allows
+            off = s.bv(p.off, 64)
+            bad = z3.Or(z3.UGT(off + z3.BitVecVal(size, 64), o.size), z3.ULT(off + z3.BitVecVal(size, 64), off))
+            mdl = s.sat(st, bad)
+            if mdl is not None:
+                raise Violation('memory', 'out-of-bounds %s of %d bytes in object %s whose size is symbolic' % (what, size, o.name), st, mdl)
+            return o
         if isc(p.off):
             if p.off < 0 or p.off + size > o.size:
                 raise Violation('memory', 'out-of-bounds %s of %d bytes at offset %d in object %s of size %d' % (what, size, p.off, o.name, o.size), st)
@@ -236,7 +244,7 @@ class Exec:
                     found = ((bits >> (8 * k)) & 0xff) if isc(bits) else z3.Extract(8 * k + 7, 8 * k, bits)
                     break
             if found is None:
-                if o.kind == 'zero': found = 0
+                if o.kind == 'zero' or o.zf: found = 0
                 else:
                     # uninitialised read: fresh unconstrained byte
                     found = z3.BitVec('uninit_%d_%d_%d' % (id(o) & 0xffff, off + i, s.stats['steps']), 8)
@@ -278,6 +286,16 @@ class Exec:
             return v if v.size() == w else z3.Extract(w - 1, 0, v)
         return v
 
+    def is_zero(s, v):
+        if isinstance(v, bool): return not v
+        if isc(v): return v == 0
+        if isinstance(v, (Ptr, tuple, NonFinite)): return False
+        v = z3.simplify(v)
+        if z3.is_bv_value(v): return v.as_long() == 0
+        if z3.is_rational_value(v): return v.numerator_as_long() == 0
+        if z3.is_fp_value(v): return v.isZero() and not v.isNegative()
+        return False
+
     def fpv(s, v):
         if s.fpmode == 'real' or z3.is_fp(v): return v
         if isc(v): raise Exception('raw int as fp value')
@@ -294,7 +312,7 @@ class Exec:
         size = s.sizeof(t)
         o = s.check_access(st, p, size, 'load')
         if isc(p.off): return s.load_cell(st, o, p.off, size, t)
-        if o.const and o.size // size <= 512 and t.k == 'int':
+        if o.const and isc(o.size) and o.size // size <= 512 and t.k == 'int':
             # lookup table with a symbolic index: ite-chain over all entries, grouped by value (no solver calls)
             groups = {}
             for off in range(0, o.size - size + 1, size):
@@ -1075,14 +1093,20 @@ class Exec:
             st.obs.append((a[0], a[1])); return 0
         if name in ('_Znwm', '_Znam', 'malloc'):
             n = a[0]
-            if not isc(n): raise Violation('unsupported', 'symbolic allocation size', st)
+            if not isc(n):
+                s.stats['stubs'].add('operator new with a symbolic size -> object whose size is that term (accesses checked against it)')
+                return Ptr(s.new_obj(st, n, 'heap(symbolic size)@%s' % fr.fn), 0)
             return Ptr(s.new_obj(st, n, 'heap@%s' % fr.fn), 0)
         if name in ('_ZdlPv', '_ZdaPv', 'free', '_ZdlPvm'):
             p = a[0]
             if p.obj == 0: return 0
             o = s.wobj(st, p.obj)
             if o.freed: raise Violation('memory', 'double free', st)
-            if o.kind != 'heap' or p.off != 0: raise Violation('memory', 'free of non-heap pointer', st)
+            if not isc(p.off):
+                m = s.sat(st, p.off != 0)
+                if m is not None: raise Violation('memory', 'free of a pointer into the middle of an object', st, m)
+            elif p.off != 0: raise Violation('memory', 'free of non-heap pointer', st)
+            if o.kind != 'heap': raise Violation('memory', 'free of non-heap pointer', st)
             o.freed = True; return 0
         if name.startswith('llvm.memcpy') or name.startswith('llvm.memmove'):
             n = a[2]
@@ -1106,7 +1130,14 @@ class Exec:
             return 0
         if name.startswith('llvm.memset'):
             n = a[2]
-            if not isc(n): raise Violation('unsupported', 'symbolic memset length', st)
+            if not isc(n):
+                # zero-fill of a whole fresh allocation whose size is the same symbolic term (std::vector<T>(n)): the object becomes zero-initialised
+                o = st.objs.get(a[0].obj)
+                if o is not None and isc(a[0].off) and isc(a[1]) and a[1] == 0 and not isc(o.size) and all(s.is_zero(cv) for (_, cv) in o.cells.values()) \
+                        and s.sat(st, z3.BitVecVal(a[0].off, 64) + n != o.size) is None:
+                    o = s.wobj(st, a[0].obj); o.zf = True; return 0      # zero-fill up to the end of a fresh allocation of symbolic size
+                if o is not None and s.sat(st, n != 0) is None: return 0
+                raise Violation('unsupported', 'symbolic memset length', st)
             if n == 0: return 0
             s.check_access(st, a[0], n, 'memset')
             do = s.wobj(st, a[0].obj); s.kill(do, a[0].off, n)
@@ -1232,6 +1263,31 @@ class Exec:
                     return z3.RealVal(v) if s.fpmode == 'real' else z3.FPVal(float(v), z3.Float64())
                 return z3.ToReal(z3.BV2Int(v, is_signed=True)) if s.fpmode == 'real' else z3.fpSignedToFP(z3.RNE(), v, z3.Float64())
             return tod(a[0]) - tod(a[1]) if s.fpmode == 'real' else z3.fpSub(z3.RNE(), tod(a[0]), tod(a[1]))
+        if name == 'memchr':
+            n = a[2]
+            if not isc(n): raise Violation('unsupported', 'symbolic memchr length', st)
+            res = NULL; 
+            # first matching byte: build from the back so that the earliest match wins
+            found = None
+            for i in reversed(range(n)):
+                b = s.load_val(st, Ptr(a[0].obj, a[0].off + i), I8)
+                c = a[1] & 0xff if isc(a[1]) else z3.Extract(7, 0, a[1])
+                if isc(b) and isc(c):
+                    if b == c: found = ('c', i)
+                    continue
+                cond = (s.bv(b, 8) == s.bv(c, 8))
+                found = ('s', i, cond, found)
+            # resolve: concrete-only chains return directly; symbolic conditions fork
+            def resolve(f):
+                if f is None: return NULL
+                if f[0] == 'c': return Ptr(a[0].obj, a[0].off + f[1])
+                _, i, cond, rest = f
+                ma = s.sat(st, cond); mb = s.sat(st, z3.Not(cond))
+                if ma is not None and mb is not None:
+                    s.fork_ret(st, x, cond, Ptr(a[0].obj, a[0].off + i), work); s.assume(st, z3.Not(cond)); return resolve(rest)
+                if ma is not None: s.assume(st, cond); return Ptr(a[0].obj, a[0].off + i)
+                s.assume(st, z3.Not(cond)); return resolve(rest)
+            return resolve(found)
         if name == 'strcmp':
             i = 0
             while True:
